@@ -40,6 +40,8 @@ fn imports_of(f: &str) -> Vec<&'static str> {
 #[derive(Clone, Copy, Debug, PartialEq)]
 enum Op {
     Initiate(&'static str),
+    /// create a task from a root file whose source does not parse: an error result, and no task exists afterwards
+    InitiateBad(&'static str),
     Required(usize),
     Load(usize, &'static str),
     /// supply the file with a source that does not parse: an error result, and the task is as before
@@ -48,7 +50,7 @@ enum Op {
     Free(usize),
 }
 fn alphabet() -> Vec<Op> {
-    let mut v = vec![Op::Initiate("/p/a.graphql"), Op::Initiate("/p/b.graphql")];
+    let mut v = vec![Op::Initiate("/p/a.graphql"), Op::Initiate("/p/b.graphql"), Op::InitiateBad("/p/a.graphql")];
     for t in 1..=3 {
         v.push(Op::Required(t));
         v.push(Op::Load(t, "/p/frags/f1.graphql"));
@@ -115,6 +117,10 @@ fn run_history(h: &[Op], slack: bool) -> Result<(), String> {
                 Ok(i) => Res::Id(i),
                 Err(_) => Res::Err,
             },
+            Op::InitiateBad(f) => match loader::initiate_task(&mut real, PathBuf::from(f), owned("query { unterminated", slack)) {
+                Ok(i) => Res::Id(i),
+                Err(_) => Res::Err,
+            },
             Op::Required(t) => match loader::get_required_files(&mut real, t) {
                 Ok(v) => {
                     let set: BTreeSet<String> = v.iter().map(|p| p.to_string_lossy().into_owned()).collect();
@@ -143,12 +149,18 @@ fn run_history(h: &[Op], slack: bool) -> Result<(), String> {
             }
         };
         let want = match *op {
-            Op::Initiate(f) => {
-                let id = model.next;
-                model.next += 1;
-                model.tasks.insert(id, (f.to_string(), [f.to_string()].into()));
-                Res::Id(id)
-            }
+            // which id a new task gets is the implementation's choice (the property does not fix it): any id that does
+            // not name a live task; the reference model then knows the task under that id
+            Op::Initiate(f) => match got {
+                Res::Id(id) if !model.tasks.contains_key(&id) => {
+                    model.next = model.next.max(id + 1);
+                    model.tasks.insert(id, (f.to_string(), [f.to_string()].into()));
+                    Res::Id(id)
+                }
+                Res::Id(id) => return Err(format!("step {step} {op:?}: the new task got the id {id} of a live task")),
+                _ => Res::Id(model.next),
+            },
+            Op::InitiateBad(_) => Res::Err,
             Op::Required(t) => match model.tasks.get(&t) {
                 None => Res::Err,
                 Some((_, files)) => Res::Files(files.iter().flat_map(|f| imports_of(f)).filter(|i| !files.contains(*i)).map(|i| i.to_string()).collect()),
@@ -197,6 +209,7 @@ fn main() {
             vec![Initiate("/p/a.graphql"), Load(1, "/p/a.graphql"), Load(1, "/p/frags/f1.graphql"), Load(1, "/p/frags/f1.graphql"), Free(1), Free(1), Emit(1)],
             vec![Initiate("/p/a.graphql"), Initiate("/p/b.graphql"), Free(1), Emit(2), Load(1, "/p/frags/f1.graphql"), Required(3)],
             vec![Initiate("/p/b.graphql"), Initiate("/p/a.graphql")],
+            vec![InitiateBad("/p/a.graphql"), Required(1), Emit(1), Initiate("/p/a.graphql"), Emit(1), Emit(2), InitiateBad("/p/b.graphql"), Free(1), Free(2)],
             vec![Initiate("/p/a.graphql"), Load(1, "/p/frags/f1.graphql"), LoadBad(1, "/p/frags/f1.graphql"), Required(1), LoadBad(1, "/p/a.graphql"), Emit(1), Free(1)],
         ];
         for slack in [false, true] {
